@@ -136,10 +136,9 @@ func zzDeadlocked() {
 // violation of c17.free-all-return.
 func ZZ_C17_free() {
 	ntxn := zzParam("ftxns", 2)
-	nslots := []uint{2, 1}[zzChoice("slots", zzParam("slotcfgs", 2))]
-	s := NewScheduler(nslots)
+	s := NewScheduler(2)
 	defer s.Close()
-	w := zzNewWorld(s.latches, ntxn)
+	w := zzNewWorldPool(s.latches, ntxn, zzParam("fpool", 3))
 	w.narrowTS = true
 	w.background = true
 	keys := make([][][]byte, ntxn)
